@@ -932,13 +932,13 @@ theorem T_C07_source_tests :
     CBV.Gen.c07SourceTests =
       [("Edge.is_valid", ["if self.kind == 'line': return False",
           "if f.norm(self.vertex_1.position - self.vertex_2.position) < constants.TOL: return False", "return True"]),
-       ("ArcEdgeBase.is_valid", ["if super().is_valid: return abs(f.norm(np.cross(arm_1, arm_2))) > constants.TOL",
+       ("ArcEdgeBase.is_valid", ["if super().is_valid: v0 = self.vertex_1.position - self.third_point.position; v1 = self.vertex_2.position - self.third_point.position; return abs(f.norm(np.cross(v0, v1))) > constants.TOL",
           "return False"]),
-       ("EdgeList.find", ["for edge in self.edges",
-          "if {vertex_1.index, vertex_2.index} == {edge.vertex_1.index, edge.vertex_2.index}: return edge",
+       ("EdgeList.find", ["for v2 in self.edges",
+          "if {v0.index, v1.index} == {v2.vertex_1.index, v2.vertex_2.index}: return v2",
           "raise EdgeNotFoundError"]),
-       ("EdgeList.add", ["try: edge = self.find(vertex_1, vertex_2)",
-          "except EdgeNotFoundError: edge = factory.create(vertex_1, vertex_2, data)",
-          "if edge.is_valid: self.edges.append(edge)", "return edge"])] := by decide
+       ("EdgeList.add", ["try: v3 = self.find(v0, v1)",
+          "except EdgeNotFoundError: v3 = factory.create(v0, v1, v2)",
+          "if v3.is_valid: self.edges.append(v3)", "return v3"])] := by rfl
 
 end CBV.C07
